@@ -129,7 +129,7 @@ def run(ctx):
         broken.append(("correspondence", {"count": len(mism), "mismatches": mism[:5]}))
     for b in bad[:5]:
         ctx.finding("%s:%s" % (b["case"]["op"], b["complaints"][0][:50]), b["complaints"][0], {"kind": "failing-input", "case": b["case"], "complaints": b["complaints"]})
-    if broken and not ctx.findings:
+    if broken and not ctx.unknown_findings():
         ctx.finding("unproved", "proof/correspondence broken, no failing input found", {"kind": "broken-obligation", "broken": broken}, found_input=False)
     ctx.coverage["broken"] = [{"what": k, "info": i} for k, i in broken]
     ctx.coverage["correspondence_mismatches"] = len(mism)
